@@ -115,8 +115,8 @@ func (g *streamGen) publish() inPacket {
 		p.ID = g.nextID
 		if rapid.IntRange(0, 7).Draw(g.rt, "highID") == 0 {
 			p.ID = uint16(rapid.IntRange(0x8000, 0xffff).Draw(g.rt, "id"))
-			for g.inCycle[p.ID] {
-				p.ID++
+			for g.inCycle[p.ID] || p.ID == 0 {
+				p.ID++ // (wraps past 0xffff; zero is no identifier)
 			}
 		}
 		if qos == 1 && rapid.IntRange(0, 7).Draw(g.rt, "dup") == 0 {
